@@ -33,7 +33,7 @@ PROP = dict(
         "the csvq binary is run with standard input from /dev/null: with a pipe on stdin csvq reads FROM-less SELECTs (the generated cursor queries) from it",
     ],
     level_text="Proof: Coq theorems (Properties/C15.v) over ALL procedures, states and fuels about an executable Gallina interpreter that mirrors Processor/ReferenceScope/UserDefinedFunction (flow values, block stack innermost first, dynamic function scope, WHILE clearing its block every iteration) and runs on an abstract scope machine: (1) block_local - after IF/CASE/WHILE/WHILE IN and after every invocation the chain has the same length and no surviving block, the enclosing one included, has a name it did not have; an outer binding of @x is unchanged unless code that assigns/fetches/disposes @x runs, and an assignment goes to the innermost binding only; (2) shadow_preserves_outer - while the innermost block binds @x and nothing disposes @x, every outer binding keeps its value through any nesting, calls and recursion; re-declaration in a new block always succeeds for variables, cursors and functions (refuted for temporary tables: finding temp-table-no-shadow); (3) call_frame_fresh - every invocation starts in a new innermost block holding exactly its parameters on top of the caller's chain (dynamic scope as coded), on the pooled heap a non-live empty object, two live siblings of one parent are distinct objects, results do not depend on the pool, and invocations that write only their own parameters/locals leave the caller's scope untouched so that per-row evaluation order is irrelevant; (4) flow_spec - the flow-value encoding equals a continuation semantics written without flags (BREAK -> after the innermost loop, CONTINUE -> its next test, RETURN -> the caller with the value, EXIT -> end of run, blocks closed on the way), for every machine and answer type; (5) pool_inv - on the pooled-heap machine, for every sync.Pool choice policy: live objects pairwise distinct and disjoint from the pool, pooled objects cleared, every Get fresh and every Put innermost, kept on every exit path incl. errors, creates and releases balance; the heap machine refines the stack machine (simulation). Tie: generated procedures (depth <= 8, shadowing, outer assignments, recursion, early exits, deliberate mistakes) run through parser.Parse+Processor.Execute (typed PRINT lines, flow, error class), through the csvq binary (stdout, exit code), the parser's placement rules for BREAK/CONTINUE/RETURN/EXIT vs the model's, and SELECT f(c1) FROM t WHERE g(c1) over >=400 rows with cpu 4 vs one model invocation per row; all compared inside Coq.",
-    level_note="Trusted: Coq kernel + vm_compute (primitive floats/ints appear under Print Assumptions only because the value type contains floats); the Go harness (generator, SQL/Coq rendering cross-checked through the parser's AST, PRINT-line reader); sync.Pool hands out a pooled object at most once until it is put back; value comparison/arithmetic = the C06 models. Not covered by a theorem: interleavings inside one invocation (goroutine scheduling) - concurrent use is modelled as independent invocations from one calling scope and checked dynamically; a release that is merely MISSING (leak) is invisible to the correspondence (mutation M9 not caught) - the balance theorem is about the model only. Fragment: see assumptions.",
+    level_note="Trusted: Coq kernel + vm_compute (primitive floats/ints appear under Print Assumptions only because the value type contains floats); the Go harness (generator, SQL/Coq rendering cross-checked through the parser's AST, PRINT-line reader); sync.Pool hands out a pooled object at most once until it is put back; value comparison/arithmetic = the C06 models. Not covered by a theorem: interleavings inside one invocation (goroutine scheduling) - concurrent use is modelled as independent invocations from one calling scope and checked dynamically; create/release balance of the real blockScopePool is checked dynamically (seeded pool, GOMAXPROCS 1, collector off: the pool must hold exactly the seeded objects after batches of procedures incl. error paths). Fragment: see assumptions.",
     technique="Coq theorems on an executable Gallina interpreter (one interpreter over an abstract scope machine, instantiated by a stack machine and by a pooled-heap machine; simulation proof between them) + vm_compute correspondence with parser.Parse/Processor.Execute, the csvq binary and query.Select under cpu 4",
     design_ref="DESIGN.md section 5 (C15)",
 )
